@@ -407,6 +407,7 @@ def r_occur(ctx, g):
                 return NotImplemented
             it = Interp(env={"pair": pair, "input": OPAQUE}, cfg=absint.default_cfg if "not(" not in cfgk else (lambda c, cf=absint.default_cfg: cf(c) if "ast-span" not in c else "not(" in c),
                         on_call=on_call)
+            it.resolve_fn = vf.new_fn_resolver(ctx.facts, [B], cfg=absint.default_cfg)
             try:
                 try:
                     res = it.block(fi.node["body"])
@@ -426,7 +427,9 @@ def r_occur(ctx, g):
                         un = lambda x: None if x in (None, ("None",)) else (x[1] if isinstance(x, tuple) and x[0] == "Some" else x)
                         got = (v, un(fl.get("lower")), un(fl.get("upper")))
             ctx.site(rid, key, B, fi.line, {"spelling": text, "ast": repr(got)})
-            if got != want:
+            if got != want and (absint.has_opaque(got) or (got is None and absint.has_opaque(res))):
+                ctx.incomplete_msg(rid, "%s: part of the converted occurrence could not be evaluated: %r" % (key, got))
+            elif got != want:
                 ctx.violation(rid, "%s|%s" % (cfgk, {"?": "optional", "*": "zero-or-more", "+": "one-or-more"}.get(text, "bounds " + text)), B, fi.line,
                               "convert_occurrence turns `%s` into %r; the grammar derivation is %r" % (text, got if got else res, want))
 
@@ -497,6 +500,7 @@ def r_rulehead(ctx, g):
                                 return OPAQUE
                         return NotImplemented
                     it = Interp(env={"pair": pair, "input": OPAQUE}, cfg=absint.default_cfg, on_call=on_call)
+                    it.resolve_fn = vf.new_fn_resolver(ctx.facts, [B], cfg=absint.default_cfg)
                     try:
                         try:
                             res = it.block(fr["convert_rule"].node["body"])
@@ -526,7 +530,9 @@ def r_rulehead(ctx, g):
                             "alt": assign[0] != "assign", "generic": generic,
                             "body": ("converted", "convert_type_expr" if kind == "typename" else "convert_group_entry", "body")}
                     ctx.site(rid, key, B, fr["convert_rule"].line, {"ast": repr(got)[:160]})
-                    if got != want:
+                    if got != want and got is not None and any(absint.has_opaque(got.get(k)) for k in want if got.get(k) != want[k]):
+                        ctx.incomplete_msg(rid, "%s: part of the converted rule could not be evaluated: %s" % (key, {k: got.get(k) for k in want if got.get(k) != want[k]}))
+                    elif got != want:
                         diff = [k for k in want if got is None or got.get(k) != want[k]]
                         ctx.violation(rid, "%s|%s" % (kind, ",".join(diff)), B, fr["convert_rule"].line,
                                       "convert_rule on `%sname%s %s ...` (%s): AST has %s, the derivation says %s"
@@ -589,6 +595,7 @@ def r_type1(ctx, g):
                     return OPAQUE
             return NotImplemented
         it = Interp(env={"pair": pair, "input": OPAQUE}, cfg=absint.default_cfg, on_call=on_call)
+        it.resolve_fn = vf.new_fn_resolver(ctx.facts, [B], cfg=absint.default_cfg)
         try:
             try:
                 res = it.block(fi.node["body"])
@@ -614,7 +621,9 @@ def r_type1(ctx, g):
                 got = (txt(t1.get("type2")), (kind, det), txt(o.get("type2")))
         exp = ("A", want, "B" if want else None)
         ctx.site(rid, cname, B, fi.line, {"ast": repr(got)})
-        if got != exp:
+        if got != exp and (absint.has_opaque(got) or (got is None and absint.has_opaque(res))):
+            ctx.incomplete_msg(rid, "%s: part of the converted type1 could not be evaluated: %r" % (cname, got))
+        elif got != exp:
             ctx.violation(rid, cname, B, fi.line, "convert_type1 on %s gives (first operand, operator, second operand) = %r; the derivation is %r" % (cname, got, exp))
 
 
